@@ -1,12 +1,12 @@
 CONSTANTS
-  Verbs = {"get", "post"}
+  Verbs = {"post"}
   Rotate = TRUE
   PathIds = {"name2", "par2", "in2"}
   Bodies = {"", "*", "inner"}
   MaxExtra = 1
   ReqSetIds = {"mixed"}
   PathValIds = {"i2", "s2"}
-  VarLeaves = {"name", "parent", "inner.name", "kind"}
+  VarLeaves = {"name", "parent", "inner.name", "inner.kind"}
   Numerics = {FALSE, TRUE}
   RespTypes = {"A"}
   ReplyIds = {"full"}
